@@ -5,6 +5,7 @@
 #include <pthread.h>
 #include <semaphore.h>
 #include <cerrno>
+#include <cstdlib>
 #include <ctime>
 #include <map>
 #include <thread>
@@ -12,6 +13,10 @@
 
 namespace sim
 {
+    thread_local int no_preempt_depth = 0;
+    NoPreempt::NoPreempt() { ++no_preempt_depth; }
+    NoPreempt::~NoPreempt() { --no_preempt_depth; }
+
     namespace
     {
         // splitmix64: a tiny PRNG that needs no libstdc++ state (safe to use inside interposers)
@@ -61,6 +66,10 @@ namespace sim
         std::vector<long long> tape_out;
         size_t tape_pos = 0;
         bool yielding   = false;          // the running thread gave up the processor voluntarily (sim::yield)
+        int target_hits = 0;
+        bool sticky_pending = false;      // set by a targeted pre-emption: the next choice starts a priority burst
+        Th *sticky = nullptr;
+        long long sticky_left = 0;
         bool log_on = true;
 
         // one decision: the PRNG's in a seeded run, the tape's in a replay (dflt beyond its end); 0 = nothing unusual
@@ -218,11 +227,38 @@ namespace sim
                     if (!dflt) dflt = runnable.front();
                 }
                 yielding = false;
+                // priority burst after a targeted pre-emption (instrumented build): the thread that is switched to keeps the
+                // processor for a seeded number of steps, so that it can get through a whole critical section while the
+                // pre-empted thread sits inside its window. The bookkeeping is outside the seeded draws: a tape replays it.
+                const bool start_burst = sticky_pending && runnable.size() > 1;
+                sticky_pending = false;
+                long long burst_len = 0;
+                if (start_burst)
+                    burst_len = draw([&]() -> long long { return 20 + static_cast<long long>(rng_sched.next() % 400); }, 0);
+                bool sticky_runnable = false;
+                if (sticky_left > 0 && sticky != nullptr)
+                    for (Th *t : runnable) if (t == sticky) sticky_runnable = true;
+                if (!sticky_runnable && !start_burst) sticky_left = 0;          // it blocked or finished: the burst is over
                 const long long cv = draw([&]() -> long long {
+                    if (start_burst)
+                    {
+                        std::vector<size_t> others;
+                        for (size_t k = 0; k < runnable.size(); ++k) if (runnable[k] != me) others.push_back(k);
+                        if (!others.empty())
+                        {
+                            const size_t k = others[rng_sched.next() % others.size()];
+                            return runnable[k] == dflt ? 0 : static_cast<long long>(k) + 1;
+                        }
+                    }
+                    if (sticky_left > 0 && sticky_runnable)
+                        for (size_t k = 0; k < runnable.size(); ++k)
+                            if (runnable[k] == sticky) return runnable[k] == dflt ? 0 : static_cast<long long>(k) + 1;
                     const size_t k = static_cast<size_t>(rng_sched.next() % runnable.size());
                     return runnable[k] == dflt ? 0 : static_cast<long long>(k) + 1;
                 });
                 Th *next = cv == 0 ? dflt : runnable[static_cast<size_t>(cv - 1) % runnable.size()];
+                if (start_burst) { sticky = next != me ? next : nullptr; sticky_left = sticky ? burst_len : 0; }
+                else if (sticky_left > 0 && next == sticky) --sticky_left;
                 ++st.steps;
                 tr.push_back(next->id);
                 if (cfg.step_jitter_us > 0)
@@ -249,6 +285,7 @@ namespace sim
             self = t;
             sem_wait(&t->sem);
             t->body();
+            ++no_preempt_depth;           // the rest runs inside the simulator
             t->st    = DONE;
             Th *next = choose(t);
             self     = nullptr;
@@ -358,6 +395,20 @@ namespace sim
     }
     long long clock_faults() { return co_faults; }
 
+    // per-call-site entry counters of the targeted pre-emption (fixed table: no allocation inside the hook)
+    struct SiteCount { void *site; int n; };
+    SiteCount site_tab[8192];
+    int site_count(void *site)
+    {
+        size_t i = (reinterpret_cast<uintptr_t>(site) >> 2) * 0x9E3779B97F4A7C15ULL >> 51;      // 13 bits
+        for (size_t k = 0; k < 8192; ++k, i = (i + 1) & 8191)
+        {
+            if (site_tab[i].site == site) return ++site_tab[i].n;
+            if (site_tab[i].site == nullptr) { site_tab[i].site = site; site_tab[i].n = 1; return 1; }
+        }
+        return 1 << 30;
+    }
+
     void configure(const Config &c)
     {
         init_real();
@@ -370,6 +421,11 @@ namespace sim
         tape_out.clear();
         tape_pos = 0;
         yielding = false;
+        target_hits = 0;
+        sticky_pending = false;
+        sticky = nullptr;
+        sticky_left = 0;
+        for (auto &e : site_tab) { e.site = nullptr; e.n = 0; }
         threads.clear();
         mutexes.clear();
     }
@@ -394,14 +450,41 @@ namespace sim
     }
     bool in_sim() { return on(); }
     int self_id() { return self ? self->id : -1; }
-    void yield() { if (on()) { yielding = true; reschedule(); } }
+    void yield() { if (on()) { NoPreempt guard; yielding = true; reschedule(); } }
 
     // called on every function entry of the instrumented runtime translation units
-    void instr_point()
+    void instr_point(void *fn, void *site)
     {
-        if (mode != THREADS || self == nullptr || cfg.instr_interval <= 0) return;
+        if (mode != THREADS || self == nullptr || cfg.instr_interval <= 0 || no_preempt_depth > 0) return;
         Th *me = self;
         if (me->in_hook || me->st != RUN) return;
+        bool other_runnable = false;
+        for (Th *t : threads) if (t != me && t->st == RUN) { other_runnable = true; break; }
+        // (a targeted point is only spent when somebody else could actually run: start-up code executed alone would
+        // otherwise use up the budget)
+        if (cfg.instr_target_mod > 0 && target_hits < cfg.instr_target_cap && other_runnable && !(sticky_left > 0 && sticky == me))
+        {   // (the thread that owns a priority burst is not pre-empted at its own targeted sites: it would hand the burst back)
+            // the *call site* is hashed, not the callee: one particular call of a hot helper (std::forward inside one
+            // std::exchange) can be singled out
+            (void)fn;
+            unsigned long long z = static_cast<unsigned long long>(reinterpret_cast<uintptr_t>(site)) ^ (cfg.seed * 0x9E3779B97F4A7C15ULL);
+            z = (z ^ (z >> 30)) * 0xBF58476D1CE4E5B9ULL;
+            z = (z ^ (z >> 27)) * 0x94D049BB133111EBULL;
+            z ^= z >> 31;
+            static const unsigned long long dbg_site = getenv("HGSIM_TARGET_SITE") ? std::strtoull(getenv("HGSIM_TARGET_SITE"), nullptr, 16) : 0;   // debugging aid
+            if (dbg_site ? ((reinterpret_cast<uintptr_t>(site) & 0xffffffffULL) == (dbg_site & 0xffffffffULL))
+                         : (z % static_cast<unsigned long long>(cfg.instr_target_mod) == 0 && site_count(site) <= 64))
+            {
+                ++target_hits;
+                ++st.instr_points;
+                me->in_hook = true;
+                yielding = true;          // a targeted point hands over to another thread by default (it is the whole point)
+                sticky_pending = true;
+                reschedule();
+                me->in_hook = false;
+                return;
+            }
+        }
         if (--me->countdown > 0) return;
         me->in_hook = true;
         const long long iv = draw([&]() -> long long { return 1 + static_cast<long long>(rng_sched.next() % static_cast<unsigned long long>(2 * cfg.instr_interval)); },
@@ -414,6 +497,7 @@ namespace sim
     void sleep_us(long long d)
     {
         if (!on()) return;
+        NoPreempt guard;
         Th *me        = self;
         me->st        = SLEEPING;
         me->timed     = true;
@@ -436,7 +520,7 @@ namespace sim
     void set_log(bool v) { log_on = v; }
 }  // namespace sim
 
-extern "C" __attribute__((no_instrument_function)) void __cyg_profile_func_enter(void *, void *) { sim::instr_point(); }
+extern "C" __attribute__((no_instrument_function)) void __cyg_profile_func_enter(void *fn, void *site) { sim::instr_point(fn, site); }
 extern "C" __attribute__((no_instrument_function)) void __cyg_profile_func_exit(void *, void *) {}
 
 namespace hv
@@ -476,6 +560,7 @@ extern "C" int pthread_mutex_lock(pthread_mutex_t *m)
 {
     sim::init_real();
     if (!sim::on()) return sim::real_mutex_lock(m);
+    sim::NoPreempt guard;
     sim::sim_lock(m);
     return 0;
 }
@@ -483,12 +568,14 @@ extern "C" int pthread_mutex_trylock(pthread_mutex_t *m)
 {
     sim::init_real();
     if (!sim::on()) return sim::real_mutex_trylock(m);
+    sim::NoPreempt guard;
     return sim::sim_trylock(m);
 }
 extern "C" int pthread_mutex_unlock(pthread_mutex_t *m)
 {
     sim::init_real();
     if (!sim::on()) return sim::real_mutex_unlock(m);
+    sim::NoPreempt guard;
     sim::sim_unlock(m);
     return 0;
 }
@@ -496,24 +583,28 @@ extern "C" int pthread_cond_wait(pthread_cond_t *c, pthread_mutex_t *m)
 {
     sim::init_real();
     if (!sim::on()) return sim::real_cond_wait(c, m);
+    sim::NoPreempt guard;
     return sim::sim_cond_wait(c, m, false, 0);
 }
 extern "C" int pthread_cond_timedwait(pthread_cond_t *c, pthread_mutex_t *m, const timespec *abs)
 {
     sim::init_real();
     if (!sim::on()) return sim::real_cond_timedwait(c, m, abs);
+    sim::NoPreempt guard;
     return sim::sim_cond_wait(c, m, true, sim::ts_to_us(abs, CLOCK_REALTIME));
 }
 extern "C" int pthread_cond_clockwait(pthread_cond_t *c, pthread_mutex_t *m, clockid_t id, const timespec *abs)
 {
     sim::init_real();
     if (!sim::on()) return sim::real_cond_clockwait(c, m, id, abs);
+    sim::NoPreempt guard;
     return sim::sim_cond_wait(c, m, true, sim::ts_to_us(abs, id));
 }
 extern "C" int pthread_cond_signal(pthread_cond_t *c)
 {
     sim::init_real();
     if (!sim::on()) return sim::real_cond_signal(c);
+    sim::NoPreempt guard;
     sim::sim_cond_wake(c, false);
     return 0;
 }
@@ -521,6 +612,7 @@ extern "C" int pthread_cond_broadcast(pthread_cond_t *c)
 {
     sim::init_real();
     if (!sim::on()) return sim::real_cond_broadcast(c);
+    sim::NoPreempt guard;
     sim::sim_cond_wake(c, true);
     return 0;
 }
